@@ -135,6 +135,11 @@ func installSpecials(in *Interp, p *Pkg) {
 		if v.K != KFun {
 			return nil, in.errf("function-not-bound-to-function")
 		}
+		if v.Fn.Builtin == nil && v.Fn.Special == nil {
+			c := *v
+			c.Via = localName(a[0].S)
+			return &c, nil
+		}
 		return v, nil
 	})
 	letLike := func(seq bool) specialFn {
